@@ -56,10 +56,25 @@ pub fn run_explorer(
     technique: &str,
     assumptions: Vec<String>,
 ) -> i32 {
+    run_explorer_ext(prop, tier, specs, checker, technique, assumptions, "model_checking", &|_| {})
+}
+
+/// `extra` may add keys to the coverage object (after the exploration finished); `level` is the evidence level
+#[allow(clippy::too_many_arguments)]
+pub fn run_explorer_ext(
+    prop: &str,
+    tier: &str,
+    specs: Vec<ExpSpec>,
+    checker: &dyn Checker,
+    technique: &str,
+    assumptions: Vec<String>,
+    level: &str,
+    extra: &dyn Fn(&mut Report),
+) -> i32 {
     let t0 = Instant::now();
     let deadline = t0 + wall_budget(tier);
     let mut total = Stats::default();
-    let mut rep = Report::new(prop, tier, "model_checking");
+    let mut rep = Report::new(prop, tier, level);
     let mut per_cfg = Vec::new();
     let mut seen_sigs = std::collections::BTreeSet::new();
     let nspecs = specs.len();
@@ -119,6 +134,7 @@ pub fn run_explorer(
         "capped_configs": capped.len(),
     });
     rep.assumptions = assumptions;
+    extra(&mut rep);
     rep.wall_s = t0.elapsed().as_secs_f64();
     rep.finish()
 }
